@@ -611,3 +611,40 @@ def c01(chk):
     chk.assumptions += ["Ed25519 / P-256 / secp256k1 primitives trusted: what is checked is which bytes, algorithm and key they are "
                         "handed and that their verdict is honoured",
                         "ECDSA (r, n-s) malleability is a property of the primitive, not a single-bit flip, and is not counted"]
+
+
+# ------------------------------------------------------------------------------------------------
+# C08 — produced JWS decode and verify to what was signed
+# ------------------------------------------------------------------------------------------------
+
+def flip_produce_case(rows, k=3):
+    out = []
+    for r in rows:
+        if r["cfg"]["part"] == "A" and r["outcome"] == "produced":
+            r = json.loads(json.dumps(r))
+            r["outcome"] = "refused_new"
+            out.append(r)
+            if len(out) >= k:
+                break
+    if not out:
+        raise ToolError("canary: no produced row")
+    return out
+
+
+@plan("C08")
+def c08(chk):
+    chk.rule = ("Part A: TLC explores the encoder typestate machine (New, SetSignature, AddRecipient, IntoJws) for compact, "
+                "flattened and general (1..3 recipients) encoders over 7 payload classes (url-safe, printable ASCII, with '.', "
+                "with quotes/backslash, control characters, non-UTF-8 binary, 10 kB) x detached x charset x per-recipient b64 x "
+                "unprotected header, predicting which step refuses; every produced token is decoded by the library's decoder and "
+                "payload, signing input, both headers, verification under the signing key and non-verification under another key "
+                "are compared. Part B: every JwsSignatureOptions combination (kid override, attach_jwk, b64, typ, cty, url, "
+                "nonce, custom parameters incl. a colliding name, detached) x 3 methods of a document x 3 payload classes through "
+                "create_jws, then all 36 verification attempts (method id none/signer/other x nonce same/different/none x scope "
+                "none/vm/authentication/assertionMethod) through verify_jws, compared with the spec's VerifyOk.")
+    r = chk.mc("JwsProduce", "JwsProduce_%s.cfg" % chk.tier, workers=4, timeout=900, heap="4g")
+    chk.replay(r["cases_file"], timeout=7000)
+    chk.canary_cases(r["cases_file"], flip_produce_case)
+    chk.assumptions += ["Ed25519 only (the algorithm of the shipped in-memory store); an empty attached payload is excluded as in the "
+                        "property",
+                        "a custom header parameter colliding with a set parameter must be refused or yield a decodable token"]
